@@ -19,6 +19,10 @@ PROPS = {
 }
 
 
+# properties whose proofs use the external_body lemmas axiom_zigzag_total / axiom_data_rows_total
+NEEDS_MODEL_FACTS = {'C01', 'C10', 'C15'}
+
+
 def fn_default_tags(contracts, fn):
     for c in contracts:
         if c.name == fn:
@@ -44,6 +48,7 @@ def trusted_base(b):
         'global size_of usize == 8 (64-bit targets only)',
         'extraction rules (tools/extract.py; every applied rule is listed in coverage.extraction_log)',
         'ISO model in /verif/spec/iso_*.vrs (tables transcribed from qrcode-0.12.0 / ISO 18004 Table 9, Annex E; BCH and geometry from first principles)',
+        'model facts axiom_zigzag_total / axiom_data_rows_total (external_body lemmas in the main run): established by the VERIFIED EXECUTABLE checker spec/checker_model_facts.vrs, compiled and run by tools/model_facts.py (stamp keyed by the hash of all spec/iso*.vrs); trusted: Verus --compile and the host toolchain',
     ] + scan_assumptions(b['text'])
 
 
